@@ -4,7 +4,7 @@
    No proofs in this file. *)
 From Coq Require Import List NArith Bool Arith.
 From SV Require Import Clock.VClock Prim.Objects Engine.Exec Prim.Semaphore.
-From SV Require Import Lang.Code Lang.ThreadOps Lang.SyncOps Lang.SyncOps2 Lang.AsyncOps Lang.Prog Lang.TokOps Lang.TokNotify.
+From SV Require Import Lang.Code Lang.ThreadOps Lang.SyncOps Lang.SyncOps2 Lang.AsyncOps Lang.Prog Lang.TokOps Lang.TokNotify Lang.TokWatch.
 Import ListNotations.
 
 Inductive top :=
@@ -38,7 +38,20 @@ Inductive top :=
 | TOsRecv (kind : nat) (o : nat)           (* 0: (&mut rx).await  2: try_recv() *)
 | TOsClose (o : nat)                       (* Receiver::close *)
 | TOsDropTx (o : nat)
-| TOsDropRx (o : nat).
+| TOsDropRx (o : nat)
+| TWSend (w slot : nat) (v : N)            (* watch Sender::send(v) *)
+| TWModify (w slot : nat) (v : N) (m : bool)   (* send_if_modified(|x| if m { *x = v; true } else { false }) *)
+| TWReplace (w slot : nat) (v : N)         (* send_replace(v): the previous value *)
+| TWBorrow (w rslot : nat)                 (* *rx.borrow() *)
+| TWBorrowUpd (w rslot : nat)              (* *rx.borrow_and_update() *)
+| TWHasChanged (w rslot : nat)
+| TWChanged (w rslot : nat)                (* rx.changed().await *)
+| TWWaitFor (w rslot : nat) (target : N)   (* rx.wait_for(|x| *x >= target).await *)
+| TWDropTx (w slot : nat)
+| TWDropRx (w rslot : nat)
+| TWSubscribe (w slot rslot : nat)         (* tx.subscribe() into the empty receiver slot rslot *)
+| TWClosed (w slot : nat)                  (* tx.closed().await *)
+| TWInfo (w slot : nat).                   (* tx.is_closed(), tx.receiver_count() *)
 
 Definition TG_SPAWNT : N := 50. Definition TG_JOINT : N := 51. Definition TG_SPAWNA : N := 52. Definition TG_AWAITA : N := 53.
 Definition TG_YIELD : N := 54. Definition TG_END : N := 55. Definition TG_START : N := 56.
@@ -50,6 +63,10 @@ Definition TG_NOTIFIED : N := 80. Definition TG_ENABLE : N := 81. Definition TG_
 Definition TG_NOTIFYONE : N := 84. Definition TG_NOTIFYALL : N := 85.
 Definition TG_OSSEND : N := 90. Definition TG_OSRECV : N := 91. Definition TG_OSCLOSE : N := 92. Definition TG_OSDROPTX : N := 93.
 Definition TG_OSDROPRX : N := 94.
+Definition TG_WSEND : N := 100. Definition TG_WMODIFY : N := 101. Definition TG_WREPLACE : N := 102. Definition TG_WBORROW : N := 103.
+Definition TG_WBORROWUPD : N := 104. Definition TG_WHASCHANGED : N := 105. Definition TG_WCHANGED : N := 106. Definition TG_WWAITFOR : N := 107.
+Definition TG_WDROPTX : N := 108. Definition TG_WDROPRX : N := 109. Definition TG_WSUBSCRIBE : N := 110. Definition TG_WCLOSED : N := 111.
+Definition TG_WINFO : N := 112.
 Definition TG_MISUSE : N := 98.          (* the harness refused the operation (dead endpoint, nothing held, ...) *)
 
 (* permits / guards held by a body: (semaphore object, permits), newest first *)
@@ -236,6 +253,52 @@ Fixpoint tcomp (fuel : nat) (jt : nat) (bodies : list (list top)) (b : nat) (ctx
          | TOsDropRx o =>
            atomic_b (fun e st => Some (e, st, os_rx_alive st o))
              (fun alive => if alive then os_drop_rx_code o (Log TG_OSDROPRX [] (go r hs js held fs ahs)) else misuse)
+         | TWSend w slot v =>
+           atomic_b (fun e st => Some (e, st, wt_tx_alive st w slot))
+             (fun alive => if alive then watch_send jt w v (fun ok => Log TG_WSEND [b2n ok] (go r hs js held fs ahs)) else misuse)
+         | TWModify w slot v m =>
+           atomic_b (fun e st => Some (e, st, wt_tx_alive st w slot))
+             (fun alive => if alive then watch_send_modify jt w v m (fun ok _ => Log TG_WMODIFY [b2n ok] (go r hs js held fs ahs)) else misuse)
+         | TWReplace w slot v =>
+           atomic_b (fun e st => Some (e, st, wt_tx_alive st w slot))
+             (fun alive => if alive then watch_send_modify jt w v true (fun _ old => Log TG_WREPLACE [old] (go r hs js held fs ahs)) else misuse)
+         | TWBorrow w rslot =>
+           atomic_b (fun e st => Some (e, st, wt_rx_alive st w rslot))
+             (fun alive => if alive then watch_borrow jt w (fun v => Log TG_WBORROW [v] (go r hs js held fs ahs)) else misuse)
+         | TWBorrowUpd w rslot =>
+           atomic_b (fun e st => Some (e, st, wt_rx_alive st w rslot))
+             (fun alive => if alive then watch_borrow_update jt w rslot (fun v => Log TG_WBORROWUPD [v] (go r hs js held fs ahs)) else misuse)
+         | TWHasChanged w rslot =>
+           atomic_b (fun e st => Some (e, st, wt_rx_alive st w rslot))
+             (fun alive => if alive then watch_has_changed w rslot (fun c => Log TG_WHASCHANGED [c] (go r hs js held fs ahs)) else misuse)
+         | TWChanged w rslot =>
+           atomic_b (fun e st => Some (e, st, wt_rx_alive st w rslot))
+             (fun alive => if alive then watch_changed ctx jt w rslot (fun ok => Log TG_WCHANGED [b2n ok] (go r hs js held fs ahs)) else misuse)
+         | TWWaitFor w rslot target =>
+           atomic_b (fun e st => Some (e, st, wt_rx_alive st w rslot))
+             (fun alive => if alive then
+                             watch_wait_for ctx jt w rslot target
+                               (fun res => Log TG_WWAITFOR (match res with Some v => [1%N; v] | None => [0%N] end) (go r hs js held fs ahs))
+                           else misuse)
+         | TWDropTx w slot =>
+           atomic_b (fun e st => Some (e, st, wt_tx_alive st w slot))
+             (fun alive => if alive then watch_drop_tx w slot (Log TG_WDROPTX [] (go r hs js held fs ahs)) else misuse)
+         | TWDropRx w rslot =>
+           atomic_b (fun e st => Some (e, st, wt_rx_alive st w rslot))
+             (fun alive => if alive then watch_drop_rx w rslot (Log TG_WDROPRX [] (go r hs js held fs ahs)) else misuse)
+         | TWSubscribe w slot rslot =>
+           atomic_b (fun e st => Some (e, st, wt_tx_alive st w slot && negb (wt_rx_alive st w rslot) && Nat.ltb rslot 3))
+             (fun okk => if okk then watch_subscribe w rslot (Log TG_WSUBSCRIBE [] (go r hs js held fs ahs)) else misuse)
+         | TWClosed w slot =>
+           atomic_b (fun e st => Some (e, st, wt_tx_alive st w slot))
+             (fun alive => if alive then watch_closed ctx jt w (Log TG_WCLOSED [] (go r hs js held fs ahs)) else misuse)
+         | TWInfo w slot =>
+           atomic_b (fun e st => Some (e, st, wt_tx_alive st w slot))
+             (fun alive =>
+                if alive then
+                  Atomic (fun e st => match watch_info st w with Some l => Some (e, st, l) | None => None end)
+                    (fun a => Log TG_WINFO a (go r hs js held fs ahs))
+                else misuse)
          end
        end) (nth b bodies []) [] [] [] [] []
   end.
